@@ -35,6 +35,8 @@
 //   lsI:S leaf I started, S = stop already requested on its token   lpI leaf I got a stop notification
 //   ldF locals of frame F destroyed    clF:A cleanup A of frame F ran    fdF frame F destroyed
 //   sqK a schedule() operation of scheduler K was started (K = 0: the receiver's scheduler)
+//   scK a schedule() operation of scheduler K saw a stop request on its receiver's token and completed with done
+//       (the schedulers are cancellable; the library's internal hops must be unstoppable)
 //   R=vN / R=eN / R=d root receiver completed       !!… monitors
 #include <unifex/at_coroutine_exit.hpp>
 #include <unifex/inplace_stop_token.hpp>
@@ -95,18 +97,30 @@ struct ManualScheduler {
     using value_types = Variant<Tuple<>>;
     template <template <typename...> class Variant>
     using error_types = Variant<std::exception_ptr>;
-    static constexpr bool sends_done = false;
+    static constexpr bool sends_done = true;
     World* w; int tag;
     template <typename R>
     struct Op final : SchedOpBase {
+      struct Cb { Op* op; void operator()() noexcept { op->on_stop(); } };
       World* w; int tag; R r;
+      std::optional<typename stop_token_type_t<R&>::template callback_type<Cb>> cb;
       Op(World* w, int tag, R&& r) : w(w), tag(tag), r(std::move(r)) {}
       void start() noexcept {
         w->emit("sq" + std::to_string(tag));
-        if (w->inlineSched) unifex::set_value(std::move(r));
-        else w->queue.push_back(this);
+        auto st = get_stop_token(r);
+        // a cancellable scheduler: a schedule() whose receiver's token has a stop request completes with done
+        if (st.stop_requested()) { w->emit("sc" + std::to_string(tag)); unifex::set_done(std::move(r)); return; }
+        if (w->inlineSched) { unifex::set_value(std::move(r)); return; }
+        w->queue.push_back(this);
+        cb.emplace(st, Cb{this});
       }
-      void run() override { unifex::set_value(std::move(r)); }
+      void on_stop() noexcept {
+        w->emit("sc" + std::to_string(tag));
+        for (auto it = w->queue.begin(); it != w->queue.end(); ++it) if (*it == this) { w->queue.erase(it); break; }
+        cb.reset();
+        unifex::set_done(std::move(r));
+      }
+      void run() override { cb.reset(); unifex::set_value(std::move(r)); }
     };
     template <typename R>
     friend Op<remove_cvref_t<R>> tag_invoke(tag_t<connect>, Sender s, R&& r) {
